@@ -724,6 +724,30 @@ def arrays_case(case, res):
     masked("-array", -P, [-v for v in pv], {"op": "neg"})
     masked("abs(array)", abs(P), [abs(v) for v in pv], {"op": "abs"})
     res.transitions += 3
+    # ufunc.at (unbuffered in-place update at given positions): the update is made exactly, or the call is refused -
+    # leaving the phase unchanged without a word is a silent loss
+    for nm, call, delta in (("np.add.at(p, [0], 1.0)", lambda q: np.add.at(q, [0], 1.0), F(1)),
+                            ("np.subtract.at(p, [1], 0.25 cycle)", lambda q: np.subtract.at(q, [1], 0.25 * u.cycle), F(-1, 4)),
+                            ("np.negative.at(p, [0])", lambda q: np.negative.at(q, [0]), None)):
+        q = Phase(np.array([5.0, float(2 ** 40)]), np.array([0.3, -0.2]))
+        before = exact(q)
+        idx = 1 if "[1]" in nm else 0
+        res.transitions += 1
+        try:
+            call(q)
+        except Exception:
+            res.hits["ufunc.at refused"] += 1
+            if exact(q) != before:
+                res.violation("at|refused but modified", f"{nm} raised and changed the phase", case, {"call": nm})
+            continue
+        after = exact(q)
+        want = list(before)
+        want[idx] = -before[idx] if delta is None else before[idx] + delta
+        if any(abs(a - w) > TOL for a, w in zip(after, want)):
+            res.violation("at|silently wrong", f"{nm} returned normally; the phase is now {[float(a) for a in after]}, exact update gives "
+                          f"{[float(w) for w in want]}", case, {"call": nm})
+        else:
+            res.hits["ufunc.at applied exactly"] += 1
     res.hits["whole grid as one array"] += 1
     res.sample({"array": "all %d grid phases at once" % len(pv)}, 1)
 
